@@ -172,6 +172,7 @@ func c05(c *orch.Ctx) (*report.Result, error) {
 				}
 				if pr.In == "body" {
 					add(rr, reqPlan{Class: "typical", BadBody: true})
+					add(rr, reqPlan{Class: "boundary", BadBody: true})
 				}
 			}
 		}
